@@ -6,6 +6,7 @@ import (
 	"math"
 	"math/big"
 	"reflect"
+	"regexp"
 	"sort"
 	"time"
 
@@ -59,6 +60,9 @@ var c16Leaves = []c16Leaf{
 	{"c16Embed", []interface{}{c16Embed{}, c16Embed{c16Inner: c16Inner{A: 1, B: "b"}, C16InnerPtr: &C16InnerPtr{C: 2}, D: 3}}},
 	{"c16Deep", []interface{}{c16Deep{}, c16Deep{c16L1: c16L1{c16L2: c16L2{c16L3: c16L3{P: 7, Q: "hello"}, M: 1}, N: 2}, Top: 3}}},
 	{"c16Annot", []interface{}{c16Annot{Value: 5, Ann: []ion.SymbolToken{ion.NewSymbolTokenFromString("age"), ion.NewSymbolTokenFromString("$5")}}, c16Annot{Value: "s"}}},
+	{"c16AnnotStruct", []interface{}{c16AnnotStruct{V: c16Inner{A: 1, B: "b"}, Ann: []ion.SymbolToken{ion.NewSymbolTokenFromString("a")}}}},
+	{"c16AnnotMap", []interface{}{c16AnnotMap{V: map[string]int{"k": 2}, Ann: []ion.SymbolToken{ion.NewSymbolTokenFromString("a")}}}},
+	{"c16AnnotList", []interface{}{c16AnnotList{V: []int{1, 2}, Ann: []ion.SymbolToken{ion.NewSymbolTokenFromString("a")}}}},
 	{"c16Case", []interface{}{c16Case{Name: "upper", Lower: "lower"}, c16Case{}}},
 	{"c16Nested", []interface{}{c16Nested{}, c16Nested{L: []c16Inner{{A: 1}, {B: "x"}}, M: map[string]*c16Inner{"k": {A: 2}, "nil": nil}, P: &c16Inner{B: "p"}, I: []interface{}{1, "two"}}}},
 }
@@ -106,6 +110,21 @@ type c16Deep struct {
 type c16Annot struct {
 	Value interface{}
 	Ann   []ion.SymbolToken `ion:",annotations"`
+}
+
+var c16Addr = regexp.MustCompile(`0x[0-9a-f]{6,}`)
+
+type c16AnnotStruct struct {
+	V   c16Inner
+	Ann []ion.SymbolToken `ion:",annotations"`
+}
+type c16AnnotMap struct {
+	V   map[string]int
+	Ann []ion.SymbolToken `ion:",annotations"`
+}
+type c16AnnotList struct {
+	V   []int
+	Ann []ion.SymbolToken `ion:",annotations"`
 }
 type c16Case struct {
 	Name  string
@@ -596,7 +615,8 @@ func c16Body(c *mc.Ctx) {
 		return
 	}
 	c.Case(func() string {
-		return fmt.Sprintf("%s %s value#%d (%s) = %+v", c16APIs[api], leaf.name, vi, c16Wrappers[w], val.Interface())
+		// pointers print as addresses, which differ from run to run: keep the witness stable
+		return fmt.Sprintf("%s %s value#%d (%s) = %s", c16APIs[api], leaf.name, vi, c16Wrappers[w], c16Addr.ReplaceAllString(fmt.Sprintf("%+v", val.Interface()), "0x…"))
 	})
 	c.Class(leaf.name + "/" + c16Wrappers[w])
 	img := func() (im *rm.Value, p string) {
@@ -734,7 +754,7 @@ func init() {
 	mc.Register(&mc.Check{
 		ID:    "C16",
 		Title: "Marshal then Unmarshal returns an equal Go value, in text and in binary",
-		Rule: "every leaf type of a 36-entry table (bool, all integer widths at their extremes, floats incl. -0/NaN/inf/float32 limits, strings incl. '$5', []byte nil/empty/non-empty, [3]byte, Timestamp at 5 precisions, Decimal and *Decimal incl. negative zero, time.Time with zones and nanoseconds, big.Int and *big.Int, interface{} fixpoints, slices/maps nil vs empty, pointers and pointer-to-pointer, structs with every ion tag option, embedded structs by value/pointer/three levels deep, the annotations wrapper, case-colliding field names, nested collections) x every boundary value x 8 wrappers (bare, pointer, slice, array, map, struct field, omitempty struct field, interface{}) x {MarshalText, MarshalBinary, MarshalBinaryLST, Encoder+Decoder}. " +
+		Rule: "every leaf type of a 39-entry table (bool, all integer widths at their extremes, floats incl. -0/NaN/inf/float32 limits, strings incl. '$5', []byte nil/empty/non-empty, [3]byte, Timestamp at 5 precisions, Decimal and *Decimal incl. negative zero, time.Time with zones and nanoseconds, big.Int and *big.Int, interface{} fixpoints, slices/maps nil vs empty, pointers and pointer-to-pointer, structs with every ion tag option, embedded structs by value/pointer/three levels deep, the annotations wrapper around a scalar, a list, a struct and a map, case-colliding field names, nested collections) x every boundary value x 8 wrappers (bare, pointer, slice, array, map, struct field, omitempty struct field, interface{}) x {MarshalText, MarshalBinary, MarshalBinaryLST, Encoder+Decoder}. " +
 			"Oracle: (i) the independent decoder reads the bytes and they equal the documented Ion image of the Go value (computed by an independent walk over the value and its tags); (ii) Unmarshal into a fresh value of the same type is equal (NaN, timestamps, decimals, times, big ints compared by value; nil vs empty collections distinguished); (iii) MarshalText twice gives identical bytes with sorted map keys. " +
 			"non-trivial = bytes decoded, image compared and round trip compared; distinct = distinct (type, wrapper, output bytes) digests",
 		Bounds:      map[string]string{"quick": "wrapper depth 1", "thorough": "same table (complete)"},
